@@ -414,7 +414,9 @@ func (m *Mast) shrink(ctx context.Context) error {
 			newNode.Key = append(newNode.Key, child.Key...)
 			newNode.Value = append(newNode.Value, child.Value...)
 			newNode.Link = append(newNode.Link, child.Link...)
-			validateNode(ctx, &newNode, m)
+			if err = validateNode(ctx, &newNode, m); err != nil {
+				return err
+			}
 		} else {
 			newNode.Link = append(newNode.Link, nil)
 		}
@@ -423,7 +425,9 @@ func (m *Mast) shrink(ctx context.Context) error {
 			newNode.Value = append(newNode.Value, node.Value[i])
 		}
 	}
-	validateNode(ctx, &newNode, m)
+	if err = validateNode(ctx, &newNode, m); err != nil {
+		return err
+	}
 	if !newNode.isEmpty() {
 		newLink, err := m.store(&newNode)
 		if err != nil {
@@ -560,7 +564,9 @@ func (node *mastNode) seekIter(ctx context.Context, idx int, f func(interface{},
 	return nil
 }
 
-func validateNode(ctx context.Context, node *mastNode, mast *Mast) {
+// validateNode reports a node that is not well-formed (or whose keys cannot be compared) as an
+// error: the node may come straight from the store, and the comparison is the caller's callback.
+func validateNode(ctx context.Context, node *mastNode, mast *Mast) error {
 	if debugMutation && node.expected != nil {
 		if !reflect.DeepEqual(node.expected.Key, node.Key) {
 			fmt.Printf("expected node %v\n", node.expected)
@@ -576,24 +582,19 @@ func validateNode(ctx context.Context, node *mastNode, mast *Mast) {
 	for i := 0; i < len(node.Key)-1; i++ {
 		cmp, err := mast.keyOrder(node.Key[0], node.Key[1])
 		if err != nil {
-			panic(err)
+			return fmt.Errorf("keyCompare: %w", err)
 		}
 		if cmp >= 0 {
-			panic(fmt.Sprintf("sweet merciful crap! %v >= %v!", node.Key[0], node.Key[1]))
+			return fmt.Errorf("node keys out of order: %v >= %v", node.Key[0], node.Key[1])
 		}
 	}
 	if len(node.Link) != len(node.Key)+1 {
-		fmt.Println("DANGIT! {")
-		node.dump(ctx, mast)
-		fmt.Println("}")
-		panic(fmt.Sprintf("node %p has %d links but %d keys", node, len(node.Link), len(node.Key)))
+		return fmt.Errorf("node has %d links but %d keys", len(node.Link), len(node.Key))
 	}
 	if len(node.Link) != len(node.Value)+1 {
-		fmt.Println("DANGIT! {")
-		node.dump(ctx, mast)
-		fmt.Println("}")
-		panic(fmt.Sprintf("node %p has %d links but %d values", node, len(node.Link), len(node.Value)))
+		return fmt.Errorf("node has %d links but %d values", len(node.Link), len(node.Value))
 	}
+	return nil
 }
 
 func (m *Mast) mergeNodes(ctx context.Context, leftLink, rightLink interface{}) (interface{}, error) {
@@ -688,7 +689,9 @@ func (m *Mast) checkRoot(ctx context.Context) error {
 }
 
 func (node *mastNode) ToMut(ctx context.Context, mast *Mast) *mastNode {
-	validateNode(ctx, node, mast)
+	if err := validateNode(ctx, node, mast); err != nil {
+		panic(err)
+	}
 	if !node.shared {
 		return node
 	}
